@@ -6,7 +6,8 @@
 (*   EncPath  = add_path_data (src/encode.rs)                               *)
 (* over TOKENS.  A path string is `tok|tok|...`; a token is                 *)
 (*   a type letter  "B" "L" "P" "C", "X" (any other letter: Catmull),       *)
-(*                  "B3" (b-spline of degree 3)                             *)
+(*                  "B3" (b-spline of degree 3), "B0" (a `B` followed by a     *)
+(*                  degree that is not positive: a plain bezier)             *)
 (*   a point        "O" (the object's own position), "A", "Bc" (collinear   *)
 (*                  with O and A), "Cn" (not collinear), "A2" (a second     *)
 (*                  spelling of A: fractional part, truncated by the code), *)
@@ -21,7 +22,7 @@
 (***************************************************************************)
 EXTENDS Integers, Sequences
 
-Letters   == {"B", "L", "P", "C", "X", "B3"}
+Letters   == {"B", "L", "P", "C", "X", "B3", "B0"}
 Points    == {"O", "A", "Bc", "Cn", "A2", "G1", "G2"}
 PathTokens == Letters \cup Points \cup {"bad", "empty"}
 
@@ -39,7 +40,7 @@ IsLinear(a, b, c) ==
 
 \* PathType::new_from_str: first character decides; everything that is not
 \* B / L / P is Catmull.  A point token in type position is Catmull too.
-TypeOf(t) == IF t \in {"B", "L", "P", "B3"} THEN t ELSE "C"
+TypeOf(t) == IF t \in {"B", "L", "P", "B3"} THEN t ELSE IF t = "B0" THEN "B" ELSE "C"
 IsLetterTok(t) == t \in Letters      \* "first char is ascii alphabetic"
 
 CP(p, ty) == [p |-> p, ty |-> ty]
